@@ -50,6 +50,86 @@ def shapes_of_state(df, st, tpath):
     return out
 
 
+class ShapeFlow:
+    """forward dataflow whose abstract value is the SET of ColumnType shapes the tracked `typ` may have (powerset domain:
+    exact for the disjunctions that nested `match typ { Collection { typ: List(_) | Set(_), .. } => .., _ => .. }` create)."""
+
+    def __init__(self, b, df, facts, tpath, universe):
+        self.b, self.df, self.facts, self.tpath, self.universe = b, df, facts, tpath, universe
+        self.p_nat = (tpath[0], tpath[1] + ("@Native", "0"))
+        self.p_coll = (tpath[0], tpath[1] + ("@Collection", "typ"))
+        self.state_in = {}
+        self.run()
+
+    def _restrict(self, shapes, level, names):
+        if level == "ct":
+            def keep(sh):
+                v = sh.split(":")[0]
+                return v in names
+        elif level == "nat":
+            def keep(sh):
+                return not sh.startswith("Native:") or sh[7:] in names
+        else:
+            def keep(sh):
+                return not sh.startswith("Collection:") or sh[11:] in names
+        return frozenset(x for x in shapes if keep(x))
+
+    def run(self):
+        from collections import deque
+        b = self.b
+        self.state_in = {0: frozenset(self.universe)}
+        wl = deque([0])
+        while wl:
+            bb = wl.popleft()
+            cur = self.state_in[bb]
+            t = b.term(bb)
+            outs = []
+            handled = False
+            if t[0] == "switch":
+                e = self.df.expr_of_operand(t[1])
+                level = None
+                if e[0] == "disc":
+                    if e[1] == self.tpath:
+                        level, adt = "ct", CT
+                    elif e[1] == self.p_nat:
+                        level, adt = "nat", NT
+                    elif e[1] == self.p_coll:
+                        level, adt = "coll", COLL
+                if level:
+                    handled = True
+                    allv = {int(v["discr"]): v["name"] for v in self.facts.adt(adt)["variants"]}
+                    listed = set()
+                    for v, tg in t[2]:
+                        nm = allv.get(int(v))
+                        listed.add(nm)
+                        outs.append((tg, self._restrict(cur, level, {nm})))
+                    rest = set(allv.values()) - listed
+                    outs.append((t[3], self._restrict(cur, level, rest)))
+            if not handled:
+                outs = [(s_, cur) for s_ in b.succ[bb]]
+            for tg, sh in outs:
+                if not sh:
+                    continue
+                old = self.state_in.get(tg)
+                new = sh if old is None else (old | sh)
+                if new != old:
+                    self.state_in[tg] = new
+                    wl.append(tg)
+
+    def at(self, bb):
+        return set(self.state_in.get(bb, frozenset()))
+
+
+_sf_cache = {}
+
+
+def shapeflow(facts, b, tl, universe):
+    k = (id(facts), b.path, tl)
+    if k not in _sf_cache:
+        _sf_cache[k] = ShapeFlow(b, df_of(b, facts), facts, (tl, ()), universe)
+    return _sf_cache[k]
+
+
 def param_of_type(b, prefix, ref=None):
     for l in range(1, b.argc + 1):
         t = b.local_ty(l)
@@ -131,7 +211,7 @@ class Accept:
             if not wargs:
                 continue
             st = df.out_state(bb)
-            sh = shapes_of_state(df, st, (tl, ())) & self.gate_restrict(b, df, st, tl, depth)
+            sh = shapeflow(self.facts, b, tl, self.universe).at(bb) & self.gate_restrict(b, df, st, tl, depth)
             if c.is_(*PRIMS):
                 acc |= sh
                 sites.append((bb, "prim:" + c.name.split("::")[-1], sh))
@@ -189,7 +269,7 @@ class Accept:
             st = df.state_before_stmt(bb, j) if j is not None else df.out_state(bb)
             if st is None:
                 return set()
-            return shapes_of_state(df, st, (tl, ())) & gates(st)
+            return shapeflow(self.facts, b, tl, self.universe).at(bb) & gates(st)
 
         def gates(st):
             allowed = set(self.universe)
